@@ -63,6 +63,24 @@ func (lt *lineTracer) VisitStepOutState(node *parser.ASTNode, vs parser.Scope, t
 }
 func (lt *lineTracer) RecordThreadFinished(tid uint64) {}
 
+// visitCounter decorates the real debugger (util.ECALDebugger is a public
+// interface): it counts the state visits of every thread so that the driver
+// can tell whether a thread made progress between two reported suspensions.
+type visitCounter struct {
+	util.ECALDebugger
+	visits map[uint64]int
+}
+
+func (v *visitCounter) VisitState(node *parser.ASTNode, vs parser.Scope, tid uint64) util.TraceableRuntimeError {
+	v.visits[tid]++
+	return v.ECALDebugger.VisitState(node, vs, tid)
+}
+
+func (v *visitCounter) VisitStepOutState(node *parser.ASTNode, vs parser.Scope, tid uint64, soErr error) util.TraceableRuntimeError {
+	v.visits[tid]++
+	return v.ECALDebugger.VisitStepOutState(node, vs, tid, soErr)
+}
+
 // c15Run performs one reference run and one debugged run of a configuration
 // and returns the list of problems found.
 type c15Cfg struct {
@@ -101,8 +119,10 @@ func c15Run(c c15Cfg) *c15Result {
 	want := c15Observe(ref, rres, rerr)
 
 	en := newEnv(1)
-	dbg := interpreter.NewECALDebugger(en.vs)
+	vc := &visitCounter{ECALDebugger: interpreter.NewECALDebugger(en.vs), visits: map[uint64]int{}}
+	var dbg util.ECALDebugger = vc
 	en.erp.Debugger = dbg
+	contAt := map[string]int{} // visit count of the thread when the last continue was sent
 	if c.noBreakOnError {
 		dbg.BreakOnError(false)
 	}
@@ -153,6 +173,11 @@ func c15Run(c c15Cfg) *c15Result {
 			if run, ok := threads[id]["threadRunning"]; ok && !run.(bool) {
 				// reported suspended
 				r.nsusp++
+				tidNum, _ := strconv.ParseUint(id, 10, 64)
+				if at, sent := contAt[id]; sent && at == vc.visits[tidNum] {
+					r.probs = append(r.probs, "continue command lost: the thread is still reported as suspended at the same state visit after a continue addressed to it")
+					contAt[id] = -1
+				}
 				if d, err := dbg.HandleInput("describe " + id); err == nil && d != nil {
 					if m, ok := d.(map[string]interface{}); ok {
 						if n, ok := m["node"].(map[string]interface{}); ok {
@@ -171,6 +196,7 @@ func c15Run(c c15Cfg) *c15Result {
 						cmd = c.script[step]
 					}
 					step++
+					contAt[id] = vc.visits[tidNum]
 					if _, err := dbg.HandleInput(fmt.Sprintf("cont %s %s", id, cmd)); err != nil {
 						r.probs = append(r.probs, "cont failed: "+err.Error())
 					}
